@@ -238,8 +238,8 @@ def audit(pid, module, theorems, allowed):
         s = ln.strip()
         if not s or _AX_HDR.match(s):
             continue
-        m = re.match(r"^([A-Za-z_][\w.']*)\s*:", s)
-        if m and not ln.startswith("   "):
+        m = re.match(r"^([A-Za-z_][\w.']*)\s*(:|$)", s)
+        if m and not ln.startswith(" "):
             res[cur].append(m.group(1))
     for t in theorems:
         if t not in res:
